@@ -14,6 +14,7 @@ package c12
 import (
 	"fmt"
 	"math"
+	"os"
 	"strings"
 	"sync"
 
@@ -179,7 +180,12 @@ func newRT() (*rt, error) {
 }
 
 // call invokes prelude function name with args; a throw / panic is returned as problem text.
+var trace = os.Getenv("C12_TRACE") != ""
+
 func (t *rt) call(name string, args ...goja.Value) (goja.Value, string) {
+	if trace {
+		fmt.Fprintf(os.Stderr, "call %s %v\n", name, args)
+	}
 	fn := t.fns[name]
 	o := gj.Call(func() (goja.Value, error) { return fn(goja.Undefined(), args...) })
 	switch {
@@ -228,6 +234,11 @@ type batch struct {
 }
 
 func (b *batch) report(monitor string, w witness) {
+	if w.Kind == "double" && w.Value == "" && w.Bits != "" {
+		var u uint64
+		fmt.Sscanf(w.Bits, "%x", &u)
+		w.Value = showNum(math.Float64frombits(u))
+	}
 	sig := monitor + "|" + w.Kind + "|" + w.Op + "|" + w.Arg + "|" + w.Via + "|" + w.Bits + w.Input
 	b.viols = append(b.viols, viol{monitor, sig, w})
 }
@@ -236,7 +247,7 @@ func (b *batch) report(monitor string, w witness) {
 func (b *batch) checkText(d dbl, op, via string, arg int, got goja.Value, prob string, want string, decimal bool) {
 	b.st.Inc("op:" + op)
 	b.st.Inc("via:" + via)
-	w := witness{Kind: "double", Family: d.fam, Bits: hexBits(d.x), Value: showNum(d.x), Op: op, Via: via, Expected: want}
+	w := witness{Kind: "double", Family: d.fam, Bits: hexBits(d.x), Op: op, Via: via, Expected: want}
 	if arg >= 0 {
 		w.Arg = itoa(arg)
 	}
@@ -367,17 +378,17 @@ func (b *batch) oneDouble(d dbl, sweep bool) {
 			if p == "" {
 				obs = showNum(v.ToFloat())
 			}
-			b.report("round-trip", witness{Kind: "double", Family: d.fam, Bits: hexBits(x), Value: showNum(x), Op: "Number(String(x))", Via: "runtime:rt", Expected: showNum(wantRT), Observed: obs})
+			b.report("round-trip", witness{Kind: "double", Family: d.fam, Bits: hexBits(x), Op: "Number(String(x))", Via: "runtime:rt", Expected: showNum(wantRT), Observed: obs})
 		}
 		// direct
-		w := witness{Kind: "double", Family: d.fam, Bits: hexBits(x), Value: showNum(x), Op: "String", Via: "direct:FToStr(ModeStandard)", Expected: want}
+		w := witness{Kind: "double", Family: d.fam, Bits: hexBits(x), Op: "String", Via: "direct:FToStr(ModeStandard)", Expected: want}
 		st.Inc("op:String")
 		st.Inc("via:direct")
 		b.checkTextStr(w, d, "String", b.direct(x, ftoa.ModeStandard, 0), want, true)
 		wantE, _ := numref.ToExponential(x, -1)
 		v, p = b.t.call("ex0", xv)
 		b.checkText(d, "toExponential()", "runtime:ex0", -1, v, p, wantE, true)
-		w = witness{Kind: "double", Family: d.fam, Bits: hexBits(x), Value: showNum(x), Op: "toExponential()", Via: "direct:FToStr(ModeStandardExponential)", Expected: wantE}
+		w = witness{Kind: "double", Family: d.fam, Bits: hexBits(x), Op: "toExponential()", Via: "direct:FToStr(ModeStandardExponential)", Expected: wantE}
 		b.checkTextStr(w, d, "toExponential()", b.direct(x, ftoa.ModeStandardExponential, 0), wantE, true)
 	}
 
@@ -426,7 +437,7 @@ func (b *batch) oneDouble(d dbl, sweep bool) {
 		b.nontr = true
 		v, p := b.t.call("fx", xv, b.t.r.ToValue(a))
 		b.checkText(d, "toFixed", "runtime:fx", a, v, p, want, false)
-		w := witness{Kind: "double", Family: d.fam, Bits: hexBits(x), Value: showNum(x), Op: "toFixed", Arg: itoa(a), Via: "direct:FToStr(ModeFixed)", Expected: want}
+		w := witness{Kind: "double", Family: d.fam, Bits: hexBits(x), Op: "toFixed", Arg: itoa(a), Via: "direct:FToStr(ModeFixed)", Expected: want}
 		st.Inc("op:toFixed")
 		st.Inc("via:direct")
 		b.checkTextStr(w, d, "toFixed", b.direct(x, ftoa.ModeFixed, a), want, false)
@@ -467,9 +478,9 @@ func (b *batch) oneDouble(d dbl, sweep bool) {
 		st.Inc("op:toPrecision")
 		st.Inc("op:toExponential")
 		st.Count("via:direct", 2)
-		w := witness{Kind: "double", Family: d.fam, Bits: hexBits(x), Value: showNum(x), Op: "toPrecision", Arg: itoa(a), Via: "direct:FToStr(ModePrecision)", Expected: wantP}
+		w := witness{Kind: "double", Family: d.fam, Bits: hexBits(x), Op: "toPrecision", Arg: itoa(a), Via: "direct:FToStr(ModePrecision)", Expected: wantP}
 		b.checkTextStr(w, d, "toPrecision", b.direct(x, ftoa.ModePrecision, a), wantP, false)
-		w = witness{Kind: "double", Family: d.fam, Bits: hexBits(x), Value: showNum(x), Op: "toExponential", Arg: itoa(a - 1), Via: "direct:FToStr(ModeExponential)", Expected: wantE}
+		w = witness{Kind: "double", Family: d.fam, Bits: hexBits(x), Op: "toExponential", Arg: itoa(a - 1), Via: "direct:FToStr(ModeExponential)", Expected: wantE}
 		b.checkTextStr(w, d, "toExponential", b.direct(x, ftoa.ModeExponential, a), wantE, false)
 	}
 
@@ -516,7 +527,7 @@ func (b *batch) checkRadix(d dbl, radix int, via string, got goja.Value, prob st
 	st.Inc("op:toString(radix)")
 	st.Inc("via:" + via)
 	x := d.x
-	w := witness{Kind: "double", Family: d.fam, Bits: hexBits(x), Value: showNum(x), Op: "toString(radix)", Arg: itoa(radix), Via: via}
+	w := witness{Kind: "double", Family: d.fam, Bits: hexBits(x), Op: "toString(radix)", Arg: itoa(radix), Via: via}
 	if prob != "" {
 		w.Observed, w.Expected = prob, "a radix string"
 		b.report("unexpected-abrupt", w)
@@ -548,13 +559,14 @@ func (b *batch) checkRadix(d dbl, radix int, via string, got goja.Value, prob st
 		return
 	}
 	neg, num, den, ok := numref.ParseRadixString(s, radix)
-	w.Expected = "radix-" + itoa(radix) + " digits that parse back to " + showNum(x)
 	if !ok {
+		w.Expected = "radix-" + itoa(radix) + " digits that parse back to " + showNum(x)
 		b.report("radix-malformed", w)
 		return
 	}
 	back := numref.RoundFrac(neg, num, den)
 	if !numref.SameValue(back, x) {
+		w.Expected = "radix-" + itoa(radix) + " digits that parse back to " + showNum(x)
 		w.Observed += " (parses back to " + showNum(back) + ")"
 		b.report("radix-parse-back", w)
 		return
@@ -571,22 +583,27 @@ func (b *batch) checkRadix(d dbl, radix int, via string, got goja.Value, prob st
 
 // ---- strings -----------------------------------------------------------------------------------------------------------
 
-func (b *batch) numResult(kind, op, via, in string, fam string, arg string, got goja.Value, prob string, accept func(float64) bool, want string) {
+func (b *batch) numResult(kind, op, via, in string, fam string, arg string, got goja.Value, prob string, accept func(float64) bool, want float64) {
 	b.st.Inc("op:" + op)
 	b.st.Inc("via:" + via)
-	w := witness{Kind: kind, Family: fam, Op: op, Arg: arg, Via: via, Input: quote(in), Expected: want}
+	mk := func() witness {
+		return witness{Kind: kind, Family: fam, Op: op, Arg: arg, Via: via, Input: quote(in), Expected: showNum(want)}
+	}
 	if prob != "" {
+		w := mk()
 		w.Observed = prob
 		b.report("unexpected-abrupt", w)
 		return
 	}
 	if got == nil || !goja.IsNumber(got) {
+		w := mk()
 		w.Observed = fmt.Sprintf("non-number %v", got)
 		b.report("result-type", w)
 		return
 	}
 	f := got.ToFloat()
 	if !accept(f) {
+		w := mk()
 		w.Observed = showNum(f)
 		b.report("value-"+op, w)
 	}
@@ -636,14 +653,14 @@ func (b *batch) strings(items []str) {
 		eqN := func(f float64) bool { return numref.SameValue(f, wantN) }
 		eqF := func(f float64) bool { return numref.SameValue(f, wantF) }
 		v, p := b.t.call("num", sv)
-		b.numResult("string", "Number", "runtime:num(go-string)", s, it.fam, "", v, p, eqN, showNum(wantN))
+		b.numResult("string", "Number", "runtime:num(go-string)", s, it.fam, "", v, p, eqN, wantN)
 		v, p = b.t.call("plus", sv)
-		b.numResult("string", "unary+", "runtime:plus(go-string)", s, it.fam, "", v, p, eqN, showNum(wantN))
+		b.numResult("string", "unary+", "runtime:plus(go-string)", s, it.fam, "", v, p, eqN, wantN)
 		v, p = b.t.call("pf", sv)
-		b.numResult("string", "parseFloat", "runtime:pf(go-string)", s, it.fam, "", v, p, eqF, showNum(wantF))
+		b.numResult("string", "parseFloat", "runtime:pf(go-string)", s, it.fam, "", v, p, eqF, wantF)
 		if b.c.Rng.Chance(1, 4) {
 			v, p = b.t.call("npf", sv)
-			b.numResult("string", "parseFloat", "runtime:Number.parseFloat", s, it.fam, "", v, p, eqF, showNum(wantF))
+			b.numResult("string", "parseFloat", "runtime:Number.parseFloat", s, it.fam, "", v, p, eqF, wantF)
 		}
 		if isValidLiteral(s) {
 			lits = append(lits, it)
@@ -663,7 +680,7 @@ func (b *batch) strings(items []str) {
 		src.WriteString("\n]")
 		b.runArray(src.String(), len(lits), func(i int, got goja.Value, prob string) {
 			want, _ := numref.LiteralValue(lits[i].s)
-			b.numResult("string", "literal", "source:numeric-literal", lits[i].s, lits[i].fam, "", got, prob, func(f float64) bool { return numref.SameValue(f, want) }, showNum(want))
+			b.numResult("string", "literal", "source:numeric-literal", lits[i].s, lits[i].fam, "", got, prob, func(f float64) bool { return numref.SameValue(f, want) }, want)
 		})
 		// the same literals with numeric separators and behind a unary minus
 		var src2 strings.Builder
@@ -684,7 +701,7 @@ func (b *batch) strings(items []str) {
 		}
 		src2.WriteString("\n]")
 		b.runArray(src2.String(), len(lits), func(i int, got goja.Value, prob string) {
-			b.numResult("string", "literal", "source:-literal_with_separators", lits[i].s, lits[i].fam, "", got, prob, func(f float64) bool { return numref.SameValue(f, wants[i]) }, showNum(wants[i]))
+			b.numResult("string", "literal", "source:-literal_with_separators", lits[i].s, lits[i].fam, "", got, prob, func(f float64) bool { return numref.SameValue(f, wants[i]) }, wants[i])
 		})
 	}
 	// string literals in source (ascii / unicode string values instead of imported Go strings)
@@ -703,10 +720,10 @@ func (b *batch) strings(items []str) {
 			u := numref.Units(it.s)
 			if i%2 == 0 {
 				want := numref.StringToNumber(u)
-				b.numResult("string", "Number", "source:string-literal", it.s, it.fam, "", got, prob, func(f float64) bool { return numref.SameValue(f, want) }, showNum(want))
+				b.numResult("string", "Number", "source:string-literal", it.s, it.fam, "", got, prob, func(f float64) bool { return numref.SameValue(f, want) }, want)
 			} else {
 				want := numref.ParseFloat(u)
-				b.numResult("string", "parseFloat", "source:string-literal", it.s, it.fam, "", got, prob, func(f float64) bool { return numref.SameValue(f, want) }, showNum(want))
+				b.numResult("string", "parseFloat", "source:string-literal", it.s, it.fam, "", got, prob, func(f float64) bool { return numref.SameValue(f, want) }, want)
 			}
 		})
 	}
@@ -805,7 +822,7 @@ func (b *batch) parseInts(items []pint) {
 		if !numref.SameValue(res.Alt, res.Value) {
 			st.Inc("parseInt:two-allowed-results")
 		}
-		want := showNum(res.Value)
+		want := res.Value
 		arg := "radix=undefined"
 		sv := b.t.r.ToValue(it.s)
 		if it.hasRadix {
@@ -851,7 +868,7 @@ func (b *batch) parseInts(items []pint) {
 			R = numref.ToInt32(float64(it.radix))
 		}
 		res := numref.ParseInt(numref.Units(it.s), R)
-		b.numResult("parseInt", "parseInt", "source:string-literal", it.s, "parseInt", fmt.Sprint("radix=", it.radix, " given=", it.hasRadix), got, prob, res.Accepts, showNum(res.Value))
+		b.numResult("parseInt", "parseInt", "source:string-literal", it.s, "parseInt", fmt.Sprint("radix=", it.radix, " given=", it.hasRadix), got, prob, res.Accepts, res.Value)
 	})
 }
 
